@@ -50,6 +50,10 @@ class Hub:
             if not self.online:
                 # connection handshake of printcore._listen_until_online: answer the probe
                 self.events.append({"k": "hs", "text": list(data)})
+                if getattr(self, "greeting", None) and not getattr(self, "greeted", False):
+                    # a controller that introduces itself first (a Grbl banner switches printcore's line numbers off)
+                    self.greeted = True
+                    self.released.append((bytes(self.greeting), {"k": "hsrel", "text": list(self.greeting)}))
                 self.released.append((OK, {"k": "hsrel", "text": list(OK)}))
                 self.cv.notify_all()
                 return
@@ -301,13 +305,15 @@ def strip_job_line(raw):
     return code.strip()
 
 
-def run_job(lines, corrupt=(), holds=None, deadline=20.0, pauses=(), instant=False, next_jobs=(), corrupt_open=(), mode="serial"):
+def run_job(lines, corrupt=(), holds=None, deadline=20.0, pauses=(), instant=False, next_jobs=(), corrupt_open=(), mode="serial",
+            greeting=None):
     """Stream `lines` with the real printcore (then, on the same connection, each job of `next_jobs`). Returns the trace.
     mode "socket": the same firmware behind a TCP connection (printcore.connect("host:port")), replies arriving in fragments."""
     from gscrib.printrun import gcoder
     from gscrib.printrun.printcore import printcore
     hub = Hub(corrupt=corrupt, holds=holds, instant=instant)
     hub.corrupt_open = set(corrupt_open)
+    hub.greeting = greeting
     later = [list(j) for j in next_jobs]
     job = [strip_job_line(x) for x in lines]
     job = [x for x in job if x]
